@@ -1,0 +1,13 @@
+//go:build verif
+
+package utils
+
+// Contracts of the log-dump reader used to build a reinitialisation file (checked by /verif/gocv; comment-only file).
+//
+// Every record of the dump becomes one message of the file, in order: nothing is dropped or merged on the way (records
+// of a Kafka board all carry an empty id, so identifiers cannot be used to tell records apart) (C20).
+//@ func ReadLogMessages
+//@   nosafety
+//@   safety C20
+//@   modifies *
+//@   loop 0 invariant[C20.log.every] len(messages) == $i + 1
